@@ -223,6 +223,8 @@ def check_dataset(ds, *, spec, fn_args, coords, requested, fn_kwargs_extra,
             require(k not in ds.coords, "constant-as-coordinate",
                     f"{tag}: plain constant {k} became a coordinate")
     for k in (resources or {}):
+        if k in (constants or {}):
+            continue        # (recorded - as the constant of that name)
         require(k not in ds.attrs and k not in ds.coords
                 and k not in ds.data_vars, "resource-recorded",
                 f"{tag}: resource {k} was recorded")
@@ -255,6 +257,8 @@ def check_dataframe(df, *, spec, fn_args, settings, fn_kwargs_extra,
         require(col in df.columns, "column-missing",
                 f"{tag}: column {col} missing from {list(df.columns)}")
     for r in (resources or {}):
+        if r in (constants or {}):
+            continue
         require(r not in df.columns, "resource-recorded",
                 f"{tag}: resource column {r}")
     seen = []
